@@ -334,7 +334,7 @@ func finalC06(w *World) {
 				s.Violate("entries-unparsable", "get-entries", "get-entries(%d,%d): %d entries", idx, idx, len(j.Entries))
 				return
 			}
-			if msg := sub.matchesEntry(j.Entries[0], sct.Timestamp); msg != "" {
+			if msg := w.creatorOf(sub).matchesEntry(j.Entries[0], sct.Timestamp); msg != "" {
 				s.Violate("stored-entry", "decode", "entry %d found for sub%d's SCT does not decode to the submission: %s", idx, sub.ID, msg)
 				return
 			}
@@ -391,7 +391,7 @@ func (sub *Submission) matchesEntry(e entryJSON, ts uint64) string {
 		if !bytes.Equal(pre, sub.Leaf.DER) {
 			return "extra_data precertificate differs from the submitted one"
 		}
-		return chainDiff(chain, sub.FullChainAfterLeaf())
+		return sub.chainOK(chain)
 	}
 	if !bytes.Equal(pl.Entry.Cert, sub.Leaf.DER) {
 		return "leaf certificate differs from the submitted one"
@@ -400,7 +400,7 @@ func (sub *Submission) matchesEntry(e entryJSON, ts uint64) string {
 	if err != nil {
 		return "extra_data: " + err.Error()
 	}
-	return chainDiff(chain, sub.FullChainAfterLeaf())
+	return sub.chainOK(chain)
 }
 
 func chainDiff(got, want [][]byte) string {
